@@ -348,6 +348,11 @@ def claim_r6rs_char(cx, res, kf):
             seen["single"] += 1
             res.must_be_unsat(pc + [z3.Not(z3.And(z3.ULE(ini, bv(127)), delim1, payload.e == z3.ZeroExt(24, ini), st.notes["idx"] == i0 + 1))],
                               "`#\\c` followed by a delimiter does not read as the character c (consuming exactly c)")
+        elif kind == "err" and not cs and not st.notes["in"] and not (isinstance(payload, Opaque) and payload.attrs.get("kind") == "io"):
+            # completeness: a single ASCII character before a delimiter or the end of input is never rejected (the printer writes
+            # every printable ASCII character as `#\c`, whatever follows it is a delimiter or nothing)
+            res.must_be_unsat(pc + [z3.ULT(i0, rd.len), i0 != rd.err_at, i0 + 1 != rd.err_at, z3.ULE(ini, bv(127)), ini != bv(ord("x")), delim1],
+                              "`#\\c` before a delimiter / at the end of input is rejected")
         elif cs and cs[0][1] == "decode_r6rs_char_hex_escape" and kind == "ok":
             okv = cs[0][4]
             some = okv.discr == 1
